@@ -79,6 +79,7 @@ class Rac:
 
     def ask_many(self, cmds, chunk=256):
         out = []
+        proc = self.p      # a caller that gave up on us (time-boxed ask) restarts the harness: then we must not touch the new process
         for i in range(0, len(cmds), chunk):
             part = cmds[i:i + chunk]
             data = "".join(json.dumps(c, ensure_ascii=False) + "\n" for c in part)
@@ -86,6 +87,8 @@ class Rac:
             t.start()
             for c in part:
                 line = self._readline(ANSWER_TIMEOUT_S)
+                if self.p is not proc:
+                    raise HarnessError("abandoned (the harness was restarted by a time-boxed caller)")
                 if line is None:
                     # no answer in ANSWER_TIMEOUT_S seconds: the real library does not come back from this command (answers arrive in
                     # order, so this is the one in flight).  Never hang the check: kill the process and report the command.
@@ -177,8 +180,10 @@ class Rac:
             out.extend(ans)
         return out
 
-    def query(self, q):
-        return self.ask({"cmd": "query", "q": q})
+    def query(self, q, timeout_s=10.0):
+        """one query, time-boxed: {"timeout": true} if the real library does not answer (it is killed and restarted)"""
+        a = self._ask_chunk_timed([{"cmd": "query", "q": q}], timeout_s)
+        return a[0] if a is not None else {"timeout": True}
 
     def close(self):
         try:
